@@ -81,6 +81,13 @@ struct UpdateResult {
     yorel::yomm2::detail::update_report report;
 };
 
+// the emitted dispatch data, parsed from the generator's text (C13)
+struct EncodedData {
+    size_t headroom = 0, nslots = 0, nvtbls = 0, ndecoded = 0, ndtbls = 0; // declared array sizes
+    std::vector<uint16_t> slots, vtbls;
+    std::vector<std::uintptr_t> dtbls;
+};
+
 struct MethodView {
     int shape, inst;
     yorel::yomm2::detail::method_info* info;
@@ -150,6 +157,15 @@ struct IWorld {
     // generator (C12 / C13)
     virtual std::string write_static_offsets() = 0;
     virtual std::string encode(const generic_compiler& c) = 0;
+    // static offsets (C12): methods of instance 2 of every shape are compiled with a
+    // static_offsets specialisation whose arrays the harness fills at run time
+    virtual bool has_static_offsets(const Registry& r, int m) = 0;
+    virtual void set_static_offsets(const Registry& r, int m, const std::vector<size_t>& slots, const std::vector<size_t>& strides) = 0;
+    virtual void sync_static_offsets() = 0; // copy installed slots_strides into them
+    // decode (C13): as a process that holds the registrations but never ran update
+    virtual void forget_installed_tables(const Registry& r) = 0;
+    virtual std::string decode(const EncodedData& d) = 0; // "" or what the decoder did wrong
+
 };
 
 std::vector<IWorld*>& worlds();
